@@ -360,16 +360,21 @@ func (dq *Deque[T]) addAfter(value T, after *element[T]) error {
 		return err
 	}
 
+	// decide which ends change before linking the new element in:
+	// afterwards the neighbors of "after" are no longer the root.
+	newFront := after.isRoot()
+	newBack := after.next.isRoot()
+
 	it := &element[T]{item: value, list: dq}
 	it.prev = after
 	it.next = after.next
 	it.prev.next = it
 	it.next.prev = it
 
-	if after.isRoot() {
+	if newFront {
 		dq.nfront.Signal()
 	}
-	if after.prev.isRoot() {
+	if newBack {
 		dq.nback.Signal()
 	}
 	dq.updates.Signal()
